@@ -188,6 +188,7 @@ def dispatch (op : String) (args : List Sexp) : String :=
   | "serde.lefspecial" => "unsupported"
   | "raw.flatten" => opFlatten args
   | "geom.contains" => opContains args
+  | "dep.tolerant" => "unsupported"
   | "dep.generic" => opDep false args
   | "dep.raw" => opDep true args
   | "dep.tetris" => opDep true args
